@@ -23,12 +23,21 @@ func verifC04KeyID(key []byte) uint64 {
 // with it, which the engine concretises): 0 = unbounded.
 var verifC04HashRange uint64
 
+// verifC04HashLow, if set, fixes the low 24 bits of the modelled entry hash of a key (the
+// upper 40 bits stay arbitrary, so the `& mask` of the code under test is exercised).
+var verifC04HashLow func(prefix uint32, key []byte) (uint64, bool)
+
 // EntryHash64 (model; the real one is renamed verifOrig_EntryHash64): arbitrary 64-bit function
 // of (prefix, key); its low 24 bits are restricted to [0, verifC04HashRange).
 func EntryHash64(prefix uint32, key []byte) uint64 {
 	id := verifC04KeyID(key)
 	// prefix and key id do not overlap for key lengths < 2^16 (id < 2^48) and prefix < 2^16
 	v := verifUF64("entryhash", uint64(prefix)<<48^id)
+	if verifC04HashLow != nil {
+		if low, ok := verifC04HashLow(prefix, key); ok {
+			return v&^0xffffff | low&0xffffff
+		}
+	}
 	if verifC04HashRange != 0 {
 		verifAssume(v&0xffffff < verifC04HashRange)
 	}
